@@ -710,6 +710,9 @@ class ParallelProcess(Process):
             stats_objs: List to add cProfile stats objs to when process
                 is deleted. Only used if ``profile`` is true.
         """
+        self._schema_set = False
+        # Whether the wrapped process is a step never changes.
+        self._is_step = process.is_step()
         super().__init__({
             'name': process.name,
             '_parallel': True,
@@ -806,11 +809,17 @@ class ParallelProcess(Process):
 
     @property
     def schema(self) -> Optional[Schema]:
+        # The schema is only ever assigned from the parent, so the copy
+        # kept here can be read while a command is in flight.
+        if self._schema_set:
+            return self._schema
         return self.run_command('schema')
 
     @schema.setter
     def schema(self, value: Optional[Schema]) -> None:
         self.run_command('set_schema', (value,))
+        self._schema = value
+        self._schema_set = True
 
     def merge_overrides(self, override: Schema) -> None:
         self.run_command('merge_overrides', (override,))
@@ -819,7 +828,7 @@ class ParallelProcess(Process):
         return self.run_command('calculate_timestep', (states,))
 
     def is_step(self) -> bool:
-        return self.run_command('is_step')
+        return self._is_step
 
     def get_private_state(self) -> State:
         return self.run_command('get_private_state')
